@@ -556,3 +556,6 @@ func canonField(st *types.Struct, i int) string {
 	}
 	return f.Name()
 }
+
+// CanonField is canonField for rule tables.
+func CanonField(st *types.Struct, i int) string { return canonField(st, i) }
